@@ -127,6 +127,24 @@ func isXValueMap(t types.Type) bool {
 	return ok && n.Obj().Pkg() != nil && n.Obj().Pkg().Path() == modPath+"/excellent/types" && n.Obj().Name() == "XValue"
 }
 
+func isXValue(t types.Type) bool {
+	n, ok := t.(*types.Named)
+	return ok && n.Obj().Pkg() != nil && n.Obj().Pkg().Path() == modPath+"/excellent/types" && n.Obj().Name() == "XValue"
+}
+
+func (a *analyzer) lookupInterface(pkgPath, name string) *types.Interface {
+	for _, p := range a.pkgs {
+		if p.PkgPath == pkgPath {
+			if o := p.Types.Scope().Lookup(name); o != nil {
+				if i, ok := o.Type().Underlying().(*types.Interface); ok {
+					return i
+				}
+			}
+		}
+	}
+	return nil
+}
+
 func inModule(o types.Object) bool {
 	return o != nil && o.Pkg() != nil && (o.Pkg().Path() == modPath || strings.HasPrefix(o.Pkg().Path(), modPath+"/"))
 }
@@ -732,7 +750,63 @@ func main() {
 	}
 	sb.WriteString(" ].\n")
 
+	// ---- what the evaluator is handed besides the context: the methods of the environments built under flows/
+	envIface := a.lookupInterface(modPath+"/envs", "Environment")
+	if envIface == nil {
+		fatal("envs.Environment not found")
+	}
+	type row struct {
+		name    string
+		touches bool
+	}
+	var envRows, valRows []row
+	for obj, f := range a.funcs {
+		if !strings.HasPrefix(f.pkg.PkgPath, modPath+"/flows") || f.decl.Body == nil {
+			continue
+		}
+		sig := obj.Type().(*types.Signature)
+		if sig.Recv() != nil {
+			rt := sig.Recv().Type()
+			if types.Implements(rt, envIface) || types.Implements(types.NewPointer(rt), envIface) {
+				envRows = append(envRows, row{fullName(obj), a.touches[obj]})
+			}
+		}
+		// functions that hand a types.XValue to the context directly (not through a map): the two URN sinks and
+		// the group / field / path / legacy-extra values.  Router tests (flows/routers/cases) are functions of
+		// their arguments and are not part of the context.
+		if sig.Results().Len() == 1 && isXValue(sig.Results().At(0).Type()) && !isWrapper(obj) &&
+			!strings.HasPrefix(f.pkg.PkgPath, modPath+"/flows/routers/cases") {
+			valRows = append(valRows, row{fullName(obj), a.touches[obj]})
+		}
+	}
+	sortRows := func(rs []row) {
+		sort.Slice(rs, func(i, j int) bool { return rs[i].name < rs[j].name })
+	}
+	sortRows(envRows)
+	sortRows(valRows)
+	if len(envRows) < 4 || len(valRows) < 2 {
+		fatal("unexpected census: %d environment methods, %d value builders", len(envRows), len(valRows))
+	}
+	writeRows := func(name, comment string, rs []row) {
+		fmt.Fprintf(&sb, "\n(* %s *)\nDefinition %s : list (string * bool) :=\n  [ ", comment, name)
+		for i, r := range rs {
+			if i > 0 {
+				sb.WriteString(";\n    ")
+			}
+			fmt.Fprintf(&sb, "(%s, %v)", coqStr(r.name), r.touches)
+		}
+		sb.WriteString(" ].\n")
+	}
+	writeRows("source_env_methods", "methods of every type under flows/ that implements envs.Environment; true = touches a URN (transitively)", envRows)
+	writeRows("source_value_builders", "functions under flows/ (router tests apart) whose result type is types.XValue; true = touches a URN", valRows)
+
 	if *list {
+		for _, r := range envRows {
+			fmt.Printf("env    %-50s %v\n", r.name, r.touches)
+		}
+		for _, r := range valRows {
+			fmt.Printf("value  %-50s %v\n", r.name, r.touches)
+		}
 		for _, e := range entries {
 			fmt.Printf("%-34s %s\n", e.name, e.pos)
 			for _, k := range e.keys {
